@@ -11,15 +11,24 @@
 EXTENDS Naturals, Sequences, FiniteSets, TLC
 
 CONSTANTS Links,        \* set of link names
-          Kind,         \* [Links -> {"s2r", "r2s", "relay", "strangerS", "strangerR", "wrongkeyS", "wrongkeyR"}]
+          Kind,         \* [Links -> {"s2r", "r2s", "relay", "strangerS", "strangerR", "wrongkeyS", "wrongkeyR",
+                        \*            "evilrelayS", "evilrelayR", "altsenderR"}]
+                        \* evilrelayX: party X dials a relay it was given a hint for (the hint came with the peer's hints, or the
+                        \*   TCP connection to the honest relay is intercepted - it is not authenticated); that relay is the
+                        \*   outsider: Script is what it sends back after the please-relay line ("ok" and whatever follows).
+                        \* altsenderR: a key holder of another implementation plays the sender's part towards R exactly as
+                        \*   the protocol documents it, including the losing branch "nevermind" (the Python sender cancels
+                        \*   its losing contenders instead; see ConsumeOn)
           Script,       \* [Links -> sequence of units] what a stranger / wrong-key peer sends, in order
           AllowCut,     \* BOOLEAN: the network may cut links
           AllowPartial  \* BOOLEAN: units may arrive in two pieces
 
 \* which of our two parties terminate a link.  Strangers talk to one party only.
-HasS(l) == Kind[l] \in {"s2r", "r2s", "relay", "strangerS", "wrongkeyS"}
-HasR(l) == Kind[l] \in {"s2r", "r2s", "relay", "strangerR", "wrongkeyR"}
+HasS(l) == Kind[l] \in {"s2r", "r2s", "relay", "strangerS", "wrongkeyS", "evilrelayS"}
+HasR(l) == Kind[l] \in {"s2r", "r2s", "relay", "strangerR", "wrongkeyR", "evilrelayR", "altsenderR"}
 Honest(l) == Kind[l] \in {"s2r", "r2s", "relay"}
+KeyHolder(l) == Honest(l) \/ Kind[l] = "altsenderR"
+ViaRelay(l) == Kind[l] \in {"relay", "evilrelayS", "evilrelayR"}
 
 VARIABLES
   st,        \* [Links -> [S |-> state, R |-> state]]   "-" = no such end / not connected yet
@@ -67,11 +76,12 @@ Write(w, s, l, p, u) ==
 
 \* ---- TCP connection established: both ends (if ours) start negotiating -------------------------------
 \* relay links: each of our ends first sends its please-relay line and waits for "ok"
-StartState(l) == IF Kind[l] = "relay" THEN "relay" ELSE "handshake"
-StartUnit(l, p) == IF Kind[l] = "relay" THEN "PR" ELSE MyHS(p)
+StartState(l) == IF ViaRelay(l) THEN "relay" ELSE "handshake"
+StartUnit(l, p) == IF ViaRelay(l) THEN "PR" ELSE MyHS(p)
 \* who dials: S for s2r, R for r2s, both for the relay, the outsider for the rest; dialling happens in connect()
 DialersStarted(l) == CASE Kind[l] = "s2r" -> started.S [] Kind[l] = "r2s" -> started.R
-                       [] Kind[l] = "relay" -> started.S /\ started.R [] OTHER -> TRUE
+                       [] Kind[l] = "relay" -> started.S /\ started.R
+                       [] Kind[l] = "evilrelayS" -> started.S [] Kind[l] = "evilrelayR" -> started.R [] OTHER -> TRUE
 Established(l) ==
   /\ DialersStarted(l) /\ st[l].S = "-" /\ st[l].R = "-"
   \* a party that is done no longer dials or accepts (its listener stops when the listener Deferred fires)
@@ -189,7 +199,7 @@ OutsiderSend(l) ==
 \* an outsider dials a party that is already done (it has its result, or its listener has fired): the listener is
 \* closed by then, so the connection is refused and nothing happens.  (scriptPos beyond the script marks "tried".)
 LateDial(l) ==
-  /\ ~Honest(l) /\ st[l].S = "-" /\ st[l].R = "-" /\ scriptPos[l] <= Len(Script[l])
+  /\ ~Honest(l) /\ ~ViaRelay(l) /\ st[l].S = "-" /\ st[l].R = "-" /\ scriptPos[l] <= Len(Script[l])
   /\ LET p == IF HasS(l) THEN "S" ELSE "R" IN result[p] # "-" \/ (IF p = "S" THEN winner ELSE rwin) # "-"
   /\ scriptPos' = [scriptPos EXCEPT ![l] = Len(Script[l]) + 1]
   /\ last' = <<"LateDial", l, "-">>
@@ -241,7 +251,7 @@ ReceiverNeedsGo == \A l \in Links : st[l].R = "records" => (InSeq("SH", got[l].R
 \* both results are the two ends of one link
 SameLink == (result.S \in Links /\ result.R \in Links) => result.S = result.R
 \* a party without the transit key is never selected
-KeyHoldersOnly == \A p \in Party : result[p] \in Links => Honest(result[p])
+KeyHoldersOnly == \A p \in Party : result[p] \in Links => KeyHolder(result[p])
 ResultIsRecords == \A p \in Party : result[p] \in Links => st[result[p]][p] \in {"records", "lost"}
 \* every other connection is closed once a party has its result
 OthersClosed == \A p \in Party : \A l \in Links :
